@@ -54,4 +54,8 @@ MUTANTS = [
     # ("array-variadic-snapshot-alias": equivalent mutant -- the variadic memo is written last in an array check, nothing can fail after it)
     ("pytree-struct-snapshot-alias", ["C04"], P, "pytree_memo_bak = pytree_memo.copy()", "pytree_memo_bak = pytree_memo"),
     ("pytree-single-snapshot-alias", ["C04"], P, "single_memo_bak = single_memo.copy()", "single_memo_bak = single_memo"),
+    ("dataclass-init-unwrapped", ["C02"], D, "            fn.__init__ = jaxtyped(fn.__init__, typechecker=typechecker)", "            pass"),
+    ("return-not-checked-with-params", ["C02"], D, "                        full_fn(*args, **kwargs)", "                        full_fn(*args, **kwargs) if len(args) < 2 else None"),
+    ("bcast1-binds-in-call", ["C02"], A, "elif cls_dim.broadcastable and obj_size == 1:\n            pass", "elif cls_dim.broadcastable and obj_size == 1:\n            if type(cls_dim) is _NamedDim: single_memo.setdefault(cls_dim.name, 1)"),
+    ("var-b-after-p-accumulates", ["C02"], A, "                            if broadcast_shape != prev_shape:\n", "                            if broadcast_shape != prev_shape and len(new_shape) <= len(prev_shape):\n"),
 ]
